@@ -17,4 +17,7 @@ Definition exp_awq_prints : list (string * string) := [
   ("AWQBitsTensor.__init__", "9fa0ac6308bac3d9");
   ("AWQBitsTensor.qbits_tensor", "525fcdcc36158dcb");
   ("AWQBitsTensor.dequantize", "3064e282f09273ee");
+  ("QBitsTensor.save_to_state_dict", "c0f0e4ae3d8ac5e1");
+  ("QBitsTensor.create", "04c4821ab7946e55");
+  ("QBitsTensor.optimize", "ee13fbd6bab348eb");
   ("external.pack_intweight", "acc61db5abcd232b")].
